@@ -4,3 +4,9 @@ reg("C13", "exploration", [P("codec", "pnm"), P("codec", "pnm", profile="verif-r
 reg("C14", "exploration", [P("codec", "obj"), P("codec", "obj", profile="verif-rel", name="obj-rel")])
 reg("C16", "exploration", [P("color", "all"), P("color", "all", profile="verif-rel", tiers=("thorough",), name="all-rel")])
 reg("C19", "exploration", [P("prng", "all")])
+reg("C20", "exploration", [
+    P("fpcfg", "all", package="fpcfg", features="cfg_none", name="cfg-none"),
+    P("fpcfg", "all", package="fpcfg", features="cfg_libm", name="cfg-libm"),
+    P("fpcfg", "all", package="fpcfg", features="cfg_mm", name="cfg-mm"),
+    P("fpcfg", "all", package="fpcfg", features="cfg_std", name="cfg-std"),
+])
